@@ -153,6 +153,36 @@ def std_summaries(program: Program) -> Dict[str, Callable]:
     return out
 
 
+def rule_tree_call(I: Interp, y2r, self_obj, pats) -> Value:
+    """the typed rule tree Yaml2Regex builds from the expanded patterns: the private step of produce_regex that
+    receives what _get_pattern returned (found by that role when it is not called _generate_rule_tree)"""
+    m = y2r.find_method("_generate_rule_tree")
+    kw = "patterns"
+    if m is None:
+        pr = y2r.find_method("produce_regex")
+        if pr is None:
+            raise AnalysisError("anchor Yaml2Regex.produce_regex not found")
+        src: Optional[str] = None
+        for st in ast.walk(pr.node):
+            if isinstance(st, ast.Assign) and isinstance(st.value, ast.Call) and isinstance(st.value.func, ast.Attribute) and \
+                    st.value.func.attr == "_get_pattern" and isinstance(st.targets[0], ast.Name):
+                src = st.targets[0].id
+        cands = []
+        for c in ast.walk(pr.node):
+            if isinstance(c, ast.Call) and isinstance(c.func, ast.Attribute) and isinstance(c.func.value, ast.Name) and \
+                    c.func.value.id == "self" and c.func.attr != "_get_pattern":
+                uses = [(None, a) for a in c.args] + [(k.arg, k.value) for k in c.keywords]
+                for name, a in uses:
+                    if isinstance(a, ast.Name) and a.id == src:
+                        cands.append((c.func.attr, name))
+        if len(cands) != 1 or y2r.find_method(cands[0][0]) is None:
+            raise AnalysisError(f"anchor: the tree-building step of Yaml2Regex.produce_regex was not identified ({cands})")
+        m, kw = y2r.find_method(cands[0][0]), cands[0][1]
+    if kw is None:
+        return I.call_func(m, [pats], {}, self_obj, None, None)
+    return I.call_func(m, [], {kw: pats}, self_obj, None, None)
+
+
 def child_hook(I: Interp, f: Unknown, args, kwargs, node, fr) -> Optional[Value]:
     """opaque child nodes: child.get_regex() is a hole of the child's kind"""
     recv = f.meta.get("recv")
@@ -229,7 +259,7 @@ def compile_skeleton(I: Interp, pattern: Any, config: Optional[dict] = None) -> 
         doc = {"pattern": pattern}
         self_obj = Obj(y2r, {"loaded_file": lift_skeleton(I, doc), "macros_from_terminal_filepath": NONE})
         pats = I.call_func(y2r.find_method("_get_pattern"), [], {}, self_obj, None, None)
-        tree = I.call_func(y2r.find_method("_generate_rule_tree"), [], {"patterns": pats}, self_obj, None, None)
+        tree = rule_tree_call(I, y2r, self_obj, pats)
         I.run.user["tree"] = tree
         if not isinstance(tree, Obj):
             raise AnalysisError(f"rule tree is {tree!r}")
